@@ -1,20 +1,26 @@
 import Dawgs.Model.C07
 namespace Dawgs.C07
 
-/-! ### the range mini-parser -/
+/-! ### the range mini-parser (`ex`: with / without the exact-length repair of hooks/C07-fix2.patch) -/
 
-theorem parseRange_star : parseRange [.star] = { state := 1 } := rfl
+theorem parseRange_star (ex : Bool) : parseRangeWith ex [.star] = { state := 1 } := by cases ex <;> rfl
 
 /-- the emitter's output for a stored range parses back to the same range, without errors -/
-theorem parse_emitRangeT (r : Option Int × Option Int) :
-    (parseRange (emitRangeT r)).start = r.1 ∧ (parseRange (emitRangeT r)).stop = r.2 ∧ (parseRange (emitRangeT r)).errors = 0 := by
+theorem parse_emitRangeT_with (ex : Bool) (r : Option Int × Option Int) :
+    (parseRangeWith ex (emitRangeT r)).start = r.1 ∧ (parseRangeWith ex (emitRangeT r)).stop = r.2 ∧
+    (parseRangeWith ex (emitRangeT r)).errors = 0 := by
   obtain ⟨a, b⟩ := r
-  cases a <;> cases b <;> simp [emitRangeT, parseRange, rangeStep]
+  cases ex <;> cases a <;> cases b <;> simp [emitRangeT, parseRangeWith, rangeStep, RTok.isDots]
 
-/-- every grammatical form `* a? (.. b?)?` parses without error into (a, b) -/
-theorem parse_rangeTokens (a : Option Nat) (dots : Bool) (b : Option Nat) :
-    (parseRange (rangeTokens a dots b)).errors = 0 ∧ (parseRange (rangeTokens a dots b)).start = a.map Int.ofNat ∧
-    (parseRange (rangeTokens a dots b)).stop = (if dots then b.map Int.ofNat else none) := by
-  cases a <;> cases b <;> cases dots <;> simp [rangeTokens, parseRange, rangeStep]
+theorem parse_emitRangeT (r : Option Int × Option Int) :
+    (parseRange (emitRangeT r)).start = r.1 ∧ (parseRange (emitRangeT r)).stop = r.2 ∧ (parseRange (emitRangeT r)).errors = 0 :=
+  parse_emitRangeT_with _ r
+
+/-- every grammatical form `* a? (.. b?)?` parses without error; the start index is `a`; the end index is `b` when the range
+operator is present, otherwise nothing (old) or `a` again (repaired) -/
+theorem parse_rangeTokens_with (ex : Bool) (a : Option Nat) (dots : Bool) (b : Option Nat) :
+    (parseRangeWith ex (rangeTokens a dots b)).errors = 0 ∧ (parseRangeWith ex (rangeTokens a dots b)).start = a.map Int.ofNat ∧
+    (parseRangeWith ex (rangeTokens a dots b)).stop = (if dots then b.map Int.ofNat else if ex then a.map Int.ofNat else none) := by
+  cases ex <;> cases a <;> cases b <;> cases dots <;> simp [rangeTokens, parseRangeWith, rangeStep, RTok.isDots]
 
 end Dawgs.C07
